@@ -59,14 +59,14 @@ Proof.
   assert (Heff : forall C lg, eff_from (u_lgmax (n_u x)) (C, lg) (map HCp cs) = (C ++ cs, lg)).
   { unfold eff_from. clear. induction cs as [|c t IH]; intros C lg; cbn [map fold_left]; [now rewrite app_nil_r|].
     cbn [eff_step fst snd]. rewrite IH. now rewrite <- app_assoc. }
-  rewrite (u_eta (n_u x)) at 1. rewrite Hrun, E. rewrite Heff in Hg'. cbn [fst snd] in Hg'.
+  rewrite <- (u_eta (n_u x)) in E. rewrite Hrun, E. rewrite Heff in Hg'. cbn [fst snd] in Hg'.
   assert (Hnz : nonzero cs = cs).
   { apply nonzero_all. intros c Hc. apply cok_nz. rewrite Forall_forall in Hcs. now apply Hcs. }
   eexists. split; [reflexivity|]. cbn [n_u n_log n_minlg u_lgmax u_gadget]. rewrite Hnz. auto.
 Qed.
 
 (* a sketch into a union register: the ghost the model keeps is the specification state of the history *)
-Lemma update_adm x k rv : un_adm x -> sk_adm k ->
+Lemma update_adm x k (rv : bool) : un_adm x -> sk_adm k ->
   exists u', (if rv then u_update_rv repaired (n_u x) (k_impl k) else u_update_lv repaired (n_u x) (k_impl k)) = Some u' /\
     un_adm {| n_u := u';
               n_log := if negb (sk_is_empty (k_impl k)) then n_log x ++ k_log k else n_log x;
@@ -97,7 +97,7 @@ Proof.
   destruct (reg_get (sks s) r) as [k|] eqn:Ek; [|exact Hs].
   destruct Hs as [HS HU]. pose proof (HU _ _ Eu) as Hx. pose proof (HS _ _ Ek) as Hk.
   destruct (update_adm x k (negb (rv =? 0)%Z) Hx Hk) as (u' & E & Hx').
-  destruct (rv =? 0)%Z; cbn [negb] in E; rewrite E; cbn [fst]; (apply st_adm_set_un; [split; assumption|exact Hx']).
+  unfold v_run. destruct (rv =? 0)%Z; cbn [negb] in E; rewrite E; cbn [fst]; (apply st_adm_set_un; [split; assumption|exact Hx']).
 Qed.
 
 Theorem step_raw_coupons s u cs e : st_adm s -> Forall cok (map (fun z => w32 (zN z)) cs) ->
@@ -119,7 +119,7 @@ Theorem step_reset s u e : st_adm s -> st_adm (fst (step s [16; u]%Z e)).
 Proof.
   intros Hs. cbn [step]. destruct (reg_get (uns s) u) as [x|] eqn:Eu; [|exact Hs]. cbn [fst].
   pose proof (proj2 Hs _ _ Eu) as Hx. unfold un_adm in Hx.
-  apply st_adm_set_un; [exact Hs|]. unfold un_adm. cbn [n_u n_log n_minlg u_reset u_set u_lgmax u_gadget v_run v_reset_max repaired].
+  apply st_adm_set_un; [exact Hs|]. unfold un_adm. unfold v_run. cbn [n_u n_log n_minlg u_reset u_set u_lgmax u_gadget v_reset_max repaired].
   destruct Hx as (_ & H4 & Hle & H21 & _). apply (ginv_new (u_lgmax (n_u x))); lia.
 Qed.
 
@@ -147,7 +147,7 @@ Proof.
   assert (Hb : sk_is_empty (u_gadget (n_u x)) = match n_log x with [] => true | _ => false end).
   { destruct (sk_is_empty (u_gadget (n_u x))) eqn:E.
     - now rewrite (proj1 Re eq_refl).
-    - destruct (n_log x); [|reflexivity]. rewrite (proj2 Re eq_refl) in E. discriminate. }
+    - destruct (n_log x) eqn:El; [|reflexivity]. pose proof (proj2 Re eq_refl) as Hc. discriminate Hc. }
   now rewrite Hb.
 Qed.
 
